@@ -126,8 +126,19 @@ let decode_case (line : string) : string =
 let disable_case (line : string) : string =
   str_table (disable_stdio_inheritance (parse_table line))
 
+(* kill: "<p|k> <pid> <sig> <answer of kill(2): 0 or errno>" -> "<pid> <sig> <return value>"
+   (p: uv_kill, k: uv_process_kill of a handle with that pid) *)
+let kill_case (line : string) : string =
+  match split_on ' ' line with
+  | [form; pid; sg; ans] ->
+      let a = if ans = "0" then KOk else KErr (z_of_string ans) in
+      let f = if form = "k" then uv_process_kill else uv_kill in
+      let ((p, s), r) = f (z_of_string pid) (z_of_string sg) a in
+      string_of_z p ^ " " ^ string_of_z s ^ " " ^ string_of_z r
+  | _ -> failwith "bad kill case"
+
 let () =
   let f = match Sys.argv.(1) with
-    | "run" -> run_case | "decode" -> decode_case | "disable" -> disable_case
+    | "run" -> run_case | "decode" -> decode_case | "disable" -> disable_case | "kill" -> kill_case
     | _ -> failwith "mode" in
   iter_lines (fun l -> print_string (try f l with Failure m -> "ERROR " ^ m); print_newline ())
